@@ -1,3 +1,15 @@
 from . import has_class
-CFG = {"harness": ["v1", "v2"], "functional": ["C20.preds"], "required_classes": ["predicates", "predicate-oracle", "positive-assignable", "positive-primitive", "positive-comparable"],
-       "rule": "wip", "manifest": {"text": "wip", "note": "wip"}}
+
+CFG = {
+    "harness": ["v1", "v2"],
+    "functional": ["C20.preds"],
+    "required_classes": ["predicates", "predicate-oracle", "positive-assignable", "positive-primitive", "positive-comparable"],
+    "rule": "the programs of C01 without generics; IsPrimitive / IsAssignable / IsAnonymousStruct on every Types entry of every package vs the model's predicates on the model universe; soundness oracle on every go/types type of the program: assignable => no pointer/map/slice/chan/func/interface anywhere inside (walk through named types, struct fields, arrays), primitive <=> basic scalar or defined over one, anonymous-struct <=> struct{} literal, v2 comparable <=> types.Comparable; non-trivial = input longer than 12 characters",
+    "exhaustive": [],
+    "modelled": 'Type.IsPrimitive/IsAssignable/IsAnonymousStruct over the model universe (fuelled through struct members / alias chains); IsComparable delegates to go/types.Comparable on the stored GoType and is checked, not modelled',
+    "assumptions": ["untyped constant types, complex and unsafe.Pointer are outside the fragment (gengo reports them as Unsupported by design)"],
+    "manifest": {
+        "text": "Coq theorems: IsAssignable is sound on the model universe (an assignable entry is a builtin, an alias of one, or a struct all of whose members are assignable: no Pointer/Map/Slice/Chan/Func/Interface kind is reachable through members), IsPrimitive is exactly 'Builtin or Alias of Builtin', IsAnonymousStruct holds for the struct{} entry and for no named struct; tied to /repo and to Go semantics each run: predicate values of the real code vs the model on every entry, and vs an independent go/types oracle (reference-freedom walk, types.Comparable)",
+        "note": "partial: 'the Go type contains no reference' is stated over the model universe's kinds; its link to go/types is the per-run oracle; comparable is checked against types.Comparable only; trusted: Coq kernel, extraction, OCaml driver, Go harness",
+    },
+}
